@@ -378,6 +378,8 @@ def run(ctx, rule="C10.R5"):
     t = table_term("SWAPBITSINBYTES_CACHE")
     ctx.ob(rule, "SWAPBITSINBYTES_CACHE", bool(t) and t[:2] == ("comp", "dict") and t[2] == ("kv", i, call("byte2int", call("bits2bytes", call("swapbytes", call("bytes2bits", call("int2byte", i)))))) and t[3] == r256,
            "SWAPBITSINBYTES_CACHE[i] is the byte whose bit-string is the reversed bit-string of i", key="SWAPBITSINBYTES_CACHE", loc=rel)
+    from . import C20
+    C20.byte_tables(ctx, rule, ("lib/binary.py",))
     for u in undecided:
         ctx.error("%s undecided: %s" % (rule, u))
     ctx.floor(rule, 20)
